@@ -263,8 +263,23 @@ def count_obligations(prop_file):
 
 def print_assumptions(prop_file):
     """Re-run coqc on the property file to capture Print Assumptions output (cheap: deps are compiled)."""
+    # the answer only depends on the compiled statement file: cached next to it, keyed by the .vo's mtime and size
+    vo = os.path.join(COQ, "props", prop_file + "o")
+    cache = os.path.join(COQ, "props", "." + prop_file + ".assumptions.json")
+    try:
+        st = os.stat(vo)
+        key = [st.st_mtime_ns, st.st_size]
+        c = json.load(open(cache))
+        if c.get("key") == key:
+            return c["res"], c["out"]
+    except (OSError, ValueError, KeyError):
+        key = None
     rc, o, e = sh(["coqc", "-Q", "theories", "PV", "-Q", "gen", "PVgen", "-Q", "props", "PVprops",
-                   "-w", "-all", os.path.join("props", prop_file)], cwd=COQ, timeout=600)
+                   "-w", "-all", "-o", os.path.join(BUILD, "pa-%d.vo" % os.getpid()), os.path.join("props", prop_file)], cwd=COQ, timeout=900)
+    try:
+        os.remove(os.path.join(BUILD, "pa-%d.vo" % os.getpid()))
+    except OSError:
+        pass
     if rc != 0:
         return None, o + e
     res = {}
@@ -277,6 +292,11 @@ def print_assumptions(prop_file):
             res[n] = []
         else:
             res[n] = sorted(set(re.findall(r'^([A-Za-z_][\w\.]*)\s*:', b[len("Axioms:"):], re.M)))
+    if key is not None:
+        try:
+            json.dump({"key": key, "res": res, "out": o}, open(cache, "w"))
+        except OSError:
+            pass
     return res, o
 
 
